@@ -135,7 +135,7 @@ func runC06(c *checker) {
 	if c.replayOrCorpus("C06") {
 		return
 	}
-	n := pick(64, 900)
+	n := pick(160, 1500)
 	if *programs > 0 {
 		n = *programs
 	}
